@@ -174,14 +174,19 @@ def hex_str(h):
     return bytes.fromhex(h).decode("utf-8", "surrogateescape")
 
 
-def procs_of_records(recs):
+def procs_of_records(recs, bare_map=None):
+    """bare_map: resolved path -> configured bare command name, for servers configured by bare name whose executable was
+    found where the CONFIGURED PATH says (an executable found anywhere else keeps its full path and so differs)."""
     out = []
     for r in recs:
         env = {}
         for e in r["env"]:
             k, _, v = hex_str(e).partition("=")
             env[k] = v
-        out.append({"argv": [hex_str(a) for a in r["argv"]], "env": env, "init": "initialize" in r["events"],
+        argv = [hex_str(a) for a in r["argv"]]
+        if bare_map and argv and argv[0] in bare_map:
+            argv[0] = bare_map[argv[0]]
+        out.append({"argv": argv, "env": env, "init": "initialize" in r["events"],
                     "events": r["events"]})
     return out
 
@@ -278,6 +283,18 @@ def gen_server(rng, j, dims):
         dims.append("extra-server-keys:yes")
     else:
         dims.append("extra-server-keys:no")
+    # a BARE command name: it is to be found on the PATH of the environment the server is CONFIGURED with (that is what the
+    # spawn does), not on the host's - where a different executable of the same name sits first
+    if rng.random() < 0.12:
+        name = "witbare-%d" % j
+        sv["command"] = name
+        env = dict(sv.get("env") or {})
+        env["PATH"] = f"{D}/s{j}:/usr/bin:/bin"
+        sv["env"] = env
+        dims[:] = [d for d in dims if not d.startswith(("env:", "witness:"))]
+        dims += ["env:with-own-PATH", "witness:answers", "command:bare-name"]
+    else:
+        dims.append("command:path")
     items = list(sv.items())
     rng.shuffle(items)
     return dict(items)
@@ -459,14 +476,33 @@ def materialise(case, rundir, witness):
     else:
         cfg = subst(case["config"], cdir)
         if case["kind"] == "valid":
+            bare = {}
             for sv in cfg["mcpServers"].values():
                 cmd = sv["command"]
+                if "/" not in cmd:
+                    # bare name: the real one in the first directory of the CONFIGURED PATH, a decoy of the same name in a
+                    # directory that comes first on the HOST's PATH
+                    real_dir = sv["env"]["PATH"].split(":")[0]
+                    decoy_dir = os.path.join(cdir, "decoy")
+                    for d in (real_dir, decoy_dir):
+                        if d not in dirs:
+                            os.makedirs(d, exist_ok=True)
+                            dirs.append(d)
+                        if not os.path.lexists(os.path.join(d, cmd)):
+                            os.symlink(witness, os.path.join(d, cmd))
+                    bare[os.path.join(real_dir, cmd)] = cmd
+                    continue
                 d = os.path.dirname(cmd)
                 if d not in dirs:
                     os.makedirs(d, exist_ok=True)
                     dirs.append(d)
                 if not os.path.lexists(cmd):
                     os.symlink(witness, cmd)
+            case["_bare_map"] = bare
+            if bare:
+                case = dict(case)
+                case["hostenv"] = dict(case.get("hostenv") or {})
+                case["hostenv"]["PATH"] = os.path.join(cdir, "decoy") + ":/usr/local/bin:/usr/bin:/bin"
         ser = case.get("ser", {"ensure_ascii": True, "indent": None, "nl": False})
         text = json.dumps(cfg, ensure_ascii=ser["ensure_ascii"], indent=ser["indent"]) + ("\n" if ser["nl"] else "")
         with open(path, "w", encoding="utf-8") as f:
@@ -626,21 +662,21 @@ class Judge:
                 it["q_model"] = self.ask(call(1, s, sx(step["name"])))
                 it["q_spec"] = self.ask(call(10, s, sx(step["name"]), load_obs_sx(ob)))
                 if "launch" in ob:
-                    procs = procs_of_records(ob["launch"]["procs"])
+                    procs = procs_of_records(ob["launch"]["procs"], case.get("_bare_map"))
                     it["run_obs"] = {"procs": procs, "connected": ob["launch"]["connected"]}
                     it["names"] = [step["name"]]
                     it["q_rmodel"] = self.ask(call(2, ref, denv, s, sx(step["name"])))
                     it["q_rspec"] = self.ask(call(11, ref, denv, s, sx_strs(it["names"]),
                                                   sx_procs_obs(procs, ob["launch"]["connected"])))
             elif step["ep"] == "cli":
-                procs = procs_of_records(ob["procs"])
+                procs = procs_of_records(ob["procs"], case.get("_bare_map"))
                 conn = 1 if ob["exit"] == 0 else 0
                 it["run_obs"] = {"procs": procs, "connected": conn}
                 it["names"] = [step["name"]]
                 it["q_rmodel"] = self.ask(call(2, ref, denv, s, sx(step["name"])))
                 it["q_rspec"] = self.ask(call(11, ref, denv, s, sx_strs(it["names"]), sx_procs_obs(procs, conn)))
             elif step["ep"] == "runner":
-                procs = procs_of_records(ob["procs"])
+                procs = procs_of_records(ob["procs"], case.get("_bare_map"))
                 conn = ob["connected"]
                 it["run_obs"] = {"procs": procs, "connected": conn}
                 it["names"] = list(step["names"])
@@ -911,7 +947,7 @@ REQUIRED_BUCKETS = ["backend:pydantic", "backend:fallback", "process-locale:utf-
                     "witness:answers", "witness:refuses", "hostenv:patched", "source:missing-file", "source:invalid-json",
                     "source:valid-zero-servers", "entry-point:loader", "entry-point:cli", "entry-point:runner",
                     "entry-point:loader+transport", "loader-outcome:raise-FNF", "loader-outcome:raise-JSON", "loader-outcome:raise-VAL",
-                    "loader-outcome:ok", "file-history:rewritten-in-place-after-a-load", "file-history:fresh"]
+                    "loader-outcome:ok", "file-history:rewritten-in-place-after-a-load", "file-history:fresh", "command:bare-name", "command:path"]
 
 
 def explore(ctx, drv):
